@@ -808,6 +808,15 @@ fn core_proof_verify<CS>(
 where
     CS: BbsCiphersuite,
 {
+    // a proof whose points are the identity carries no signature: with Abar = Bbar = Identity_G1 the
+    // pairing check is trivially satisfied (a serde-deserialized proof does not pass from_bytes)
+    if proof.Abar == G1Projective::IDENTITY
+        || proof.Bbar == G1Projective::IDENTITY
+        || proof.D == G1Projective::IDENTITY
+    {
+        return Err(Error::PoKSVerificationError("identity point in proof".to_owned()));
+    }
+
     let init_res = proof_verify_init::<CS>(
         pk,
         proof,
